@@ -30,11 +30,12 @@ theorem advance_total_live (o : Oracles) (symbols : List String) (c : Cursor Tok
   fun t ht => advance_total t.2 o symbols c (specials_registered t ht) hm
 
 /-- **comment-aware `advance` of each live parser class** terminates and raises coded errors only -/
-theorem advance2_total_live (o : Oracles) (symbols : List String) (c : Cursor Tok Match)
+theorem advance3_total_live (o : Oracles) (src : List Char) (tokFrom : Nat → List Match)
+    (ho : OracleOK src tokFrom) (symbols : List String) (c : Cursor Tok Match)
     (hm : ∀ m ∈ c.tokens, FromPattern m = true) : ∀ t ∈ tables,
-    (advance2 t.2 o (c.tokens.length + 1) symbols c).1 = .ok () ∨
-    ∃ e, (advance2 t.2 o (c.tokens.length + 1) symbols c).1 = .error e ∧ LexErr e :=
-  fun t ht => advance2_total t.2 o symbols c (specials_registered t ht) hm
+    (advance3 t.2 o src tokFrom symbols c).1 = .ok () ∨
+    ∃ e, (advance3 t.2 o src tokFrom symbols c).1 = .error e ∧ LexErr e :=
+  fun t ht => advance3_total t.2 o src tokFrom ho symbols c (specials_registered t ht) hm
 
 /-- the comment delimiters are registered symbols of the 2.0+ parsers and FORG0006 (raised by
 `advance_until` without stop symbols) is a coded `ElementPathTypeError` -/
